@@ -389,4 +389,33 @@ MUTANTS = {
         "props": ["C01"],
         "edits": [("monkeytype/config.py", "        return 2000\n", "        return 3\n")],
     },
+    "c10_catch_only_namelookup": {
+        "props": ["C10"],
+        "edits": [("monkeytype/cli.py", "        except MonkeyTypeError as mte:\n            if args.verbose:", "        except NameLookupError as mte:\n            if args.verbose:"),
+                  ("monkeytype/cli.py", "from monkeytype.exceptions import MonkeyTypeError", "from monkeytype.exceptions import MonkeyTypeError, NameLookupError")],
+    },
+    "c10_stop_at_first_failure": {
+        "props": ["C10"],
+        "edits": [("monkeytype/cli.py", "            failed_to_decode_count += 1\n", "            failed_to_decode_count += 1\n            break\n")],
+    },
+    "c10_count_on_stdout": {
+        "props": ["C10"],
+        "edits": [("monkeytype/cli.py", '            f"{failed_to_decode_count} traces failed to decode; use -v for details",\n            file=stderr,', '            f"{failed_to_decode_count} traces failed to decode; use -v for details",\n            file=stdout,')],
+    },
+    "c10_invalidtype_not_mte": {
+        "props": ["C10"],
+        "edits": [("monkeytype/exceptions.py", "class InvalidTypeError(MonkeyTypeError):", "class InvalidTypeError(Exception):")],
+    },
+    "c10_no_traces_silent": {
+        "props": ["C10"],
+        "edits": [("monkeytype/cli.py", "    if output is None:\n        complain_about_no_traces(args, stderr)\n        return", "    if output is None:\n        return")],
+    },
+    "c10_apply_exits_nonzero_on_failures": {
+        "props": ["C10"],
+        "edits": [("monkeytype/cli.py", "    stub = get_stub(args, stdout, stderr)\n    if stub is None:\n        complain_about_no_traces(args, stderr)\n        return\n    module = args.module_path[0]", "    stub = get_stub(args, stdout, stderr)\n    if stub is None:\n        complain_about_no_traces(args, stderr)\n        raise HandlerError('no traces')\n    module = args.module_path[0]")],
+    },
+    "c10_property_check_dropped": {
+        "props": ["C10"],
+        "edits": [("monkeytype/util.py", "            if (func.fset is None) and (func.fdel is None):\n                func = func.fget\n            else:\n                raise InvalidTypeError(\n                    f\"Property {module}.{qualname} has setter or deleter.\"\n                )", "            func = func.fget")],
+    },
 }
